@@ -686,6 +686,28 @@ class FlatInit:
 EMPTY_VALUES = ("()", "[]", "{}", "tuple()", "list()", "dict()", "tuple([])", "tuple(())")
 
 
+def is_empty_value(txt):
+    """does the (normalised) expression text denote an empty container whatever the state: an empty display, or a container
+    constructor applied to nothing or to such an empty value (`dict(())`, `list(tuple())`, `{**{}}`)?"""
+    if txt in EMPTY_VALUES:
+        return True
+    try:
+        e = ast.parse(txt, mode="eval").body
+    except (SyntaxError, ValueError, TypeError):
+        return False
+
+    def empty(x):
+        if isinstance(x, (ast.Tuple, ast.List, ast.Set)):
+            return all(isinstance(v, ast.Starred) and empty(v.value) for v in x.elts)
+        if isinstance(x, ast.Dict):
+            return all(k is None and empty(v) for k, v in zip(x.keys, x.values))
+        if isinstance(x, ast.Call) and isinstance(x.func, ast.Name) and x.func.id in ("dict", "list", "tuple", "set", "frozenset", "sorted", "reversed") \
+                and not any(k.arg is not None for k in x.keywords):
+            return all(empty(a) for a in x.args) and all(empty(k.value) for k in x.keywords) and len(x.args) <= 1
+        return False
+    return empty(e)
+
+
 def feasible_with(conj, aliases, value):
     """Can a path with the branch literals `conj` be taken when the mapping spelled by one of `aliases` is
     `value`?  Literals about anything else do not decide (the path stays possible)."""
@@ -793,6 +815,90 @@ def _class_constant(mod, ci, attr):
         and not any(isinstance(n, ast.Call) and isinstance(n.func, ast.Name) and n.func.id in ("setattr", "delattr") for n in ast.walk(mod.tree))
 
 
+def _class_param(fi):
+    """the name under which a classmethod receives its class (None for any other function)"""
+    node = getattr(fi, "node", None)
+    if node is None or getattr(fi, "cls", None) is None or not getattr(node, "decorator_list", None):
+        return None
+    if any(A.dotted(d) in ("classmethod", "builtins.classmethod") for d in node.decorator_list):
+        ps = [a.arg for a in list(getattr(node.args, "posonlyargs", [])) + list(node.args.args)]
+        return ps[0] if ps else None
+    return None
+
+
+_TABLE_WRITERS = ("append", "add", "update", "extend", "insert", "setdefault", "pop", "clear", "popitem", "remove", "discard", "__setitem__", "__delitem__", "appendleft")
+
+
+def never_rebound_display(mod, name, v):
+    """is `name` (a module-level or class-level name of module `mod`, bound to `v`) a table of the program itself: bound once
+    to a display (or a dict / frozenset / tuple / MappingProxyType made from one), and nothing in the module stores into it,
+    changes it in place or binds the name again?"""
+    v = strip_cast(v)
+    while isinstance(v, ast.Call) and A.call_attr(v) in ("dict", "frozenset", "tuple", "MappingProxyType", "OrderedDict") and len(v.args) == 1 and not v.keywords:
+        v = strip_cast(v.args[0])
+    if not isinstance(v, (ast.Dict, ast.Set, ast.Tuple, ast.List)) and not (isinstance(v, ast.Call) and A.call_attr(v) in ("dict", "frozenset") and not v.args):
+        return False
+    n_bind = 0
+    for n in ast.walk(mod.tree):
+        if isinstance(n, ast.Global) and name in n.names:
+            return False
+        if isinstance(n, (ast.Name, ast.Attribute)) and (n.id if isinstance(n, ast.Name) else n.attr) == name and isinstance(n.ctx, (ast.Store, ast.Del)):
+            n_bind += 1
+        elif isinstance(n, ast.Subscript) and isinstance(n.ctx, (ast.Store, ast.Del)) and isinstance(n.value, (ast.Name, ast.Attribute)) \
+                and (n.value.id if isinstance(n.value, ast.Name) else n.value.attr) == name:
+            return False
+        elif isinstance(n, ast.Call) and isinstance(n.func, ast.Attribute) and n.func.attr in _TABLE_WRITERS and isinstance(n.func.value, (ast.Name, ast.Attribute)) \
+                and (n.func.value.id if isinstance(n.func.value, ast.Name) else n.func.value.attr) == name:
+            return False
+        elif isinstance(n, ast.Call) and isinstance(n.func, ast.Name) and n.func.id in ("setattr", "delattr") and len(n.args) >= 2 and A.const_str(n.args[1]) in (name, None):
+            return False
+    if n_bind != 1:
+        return False
+    # every use of the name only looks into the table: an alias, an argument of a call, a returned reference could be
+    # written through somewhere this does not see
+    def is_it(x):
+        return isinstance(x, (ast.Name, ast.Attribute)) and (x.id if isinstance(x, ast.Name) else x.attr) == name and isinstance(x.ctx, ast.Load)
+
+    readers = ("get", "items", "keys", "values", "__contains__", "__getitem__", "__len__", "__iter__", "copy", "index", "count")
+    for par in ast.walk(mod.tree):
+        for ch in ast.iter_child_nodes(par):
+            if not is_it(ch):
+                continue
+            ok = (isinstance(par, ast.Subscript) and par.value is ch and isinstance(par.ctx, ast.Load)) \
+                or (isinstance(par, ast.Attribute) and par.value is ch and par.attr in readers) \
+                or (isinstance(par, ast.Compare) and ch in par.comparators and all(isinstance(o, (ast.In, ast.NotIn)) for o in par.ops)) \
+                or (isinstance(par, (ast.For, ast.comprehension)) and par.iter is ch) \
+                or (isinstance(par, ast.Call) and isinstance(par.func, ast.Name) and par.func.id in ("len", "isinstance", "sorted", "dict", "list", "tuple", "set", "frozenset", "bool", "iter", "enumerate", "any", "all")
+                    and ch in par.args) \
+                or (isinstance(par, ast.Starred) and par.value is ch) \
+                or (isinstance(par, ast.Dict) and ch in par.values and par.keys[par.values.index(ch)] is None)
+            if not ok:
+                return False
+    return True
+
+
+def _kept_default(fi, name):
+    """is `name` a parameter of `fi` whose default value is a mutable object (made once, when the function is defined) that
+    the function itself changes in place - what one call leaves in it, the next call finds"""
+    a = fi.node.args
+    pos = list(getattr(a, "posonlyargs", [])) + list(a.args)
+    pairs = list(zip(pos[len(pos) - len(a.defaults):], a.defaults)) + [(p_, d_) for (p_, d_) in zip(a.kwonlyargs, a.kw_defaults) if d_ is not None]
+    dflt = next((d_ for (p_, d_) in pairs if p_.arg == name), None)
+    if dflt is None or _frozen_table(dflt):
+        return False
+    for n in ast.walk(fi.node):
+        if isinstance(n, ast.Subscript) and isinstance(n.ctx, (ast.Store, ast.Del)) and isinstance(n.value, ast.Name) and n.value.id == name:
+            return True
+        if isinstance(n, ast.Attribute) and isinstance(n.ctx, (ast.Store, ast.Del)) and isinstance(n.value, ast.Name) and n.value.id == name:
+            return True
+        if isinstance(n, ast.Call) and isinstance(n.func, ast.Attribute) and isinstance(n.func.value, ast.Name) and n.func.value.id == name \
+                and n.func.attr in ("append", "add", "update", "extend", "insert", "setdefault", "pop", "clear", "popitem", "remove", "discard", "__setitem__", "appendleft"):
+            return True
+        if isinstance(n, ast.AugAssign) and isinstance(n.target, ast.Name) and n.target.id == name:
+            return True
+    return False
+
+
 def outliving_state_reads(fa, expr, at, _depth=2, _seen=()):
     """What the value of `expr` (at CFG node `at`) is read from that outlives the call and can be rebound or
     changed by another one: names the function declares global / nonlocal and reads before it has assigned them,
@@ -816,12 +922,14 @@ def outliving_state_reads(fa, expr, at, _depth=2, _seen=()):
         kind, _, name = a.partition(":")
         if kind == "local" and name in declared:
             out.add(name)
+        elif kind == "param" and _kept_default(fa.fi, name):
+            out.add("the default value of the parameter `%s` of %s (made once, changed by the calls)" % (name, fa.fi.qual))
         elif kind == "global":
             if name in mod.functions or name in mod.classes or name in mod.imports:
                 continue
             if name in declared or name in rebound:
                 out.add(name)
-            elif name in mod.assigns and not _frozen_table(mod.assigns[name]):
+            elif name in mod.assigns and not _frozen_table(mod.assigns[name]) and not never_rebound_display(mod, name, mod.assigns[name]):
                 out.add(name)
         elif kind == "attr":
             parts = name.split(".")
@@ -831,6 +939,12 @@ def outliving_state_reads(fa, expr, at, _depth=2, _seen=()):
                 ci = mod.classes[parts[0]]
                 if parts[1] not in ci.methods and parts[1] not in getattr(ci, "nested", {}) and not _class_constant(mod, ci, parts[1]):
                     out.add(name)
+            elif len(parts) > 1 and parts[0] == _class_param(fa.fi) and getattr(fa.fi, "cls", None) is not None:
+                # the class itself, as a classmethod receives it: what it holds is shared by every call
+                ci = fa.fi.cls
+                if parts[1] not in ci.methods and parts[1] not in getattr(ci, "nested", {}) and not _class_constant(mod, ci, parts[1]) \
+                        and not (parts[1].startswith("__") and parts[1].endswith("__")):
+                    out.add("%s.%s" % (ci.name, ".".join(parts[1:])))
     # an attribute read off the class of an object: type(x).attr
     try:
         full = fexpand(fa, expr, at)
@@ -903,7 +1017,7 @@ def own_argument_field(fl, field, param):
             return False, ("self.%s is read from state that outlives this construction (%s): another construction, or another thread "
                            "between the writes, gets the context args of a different call, which is then keyed, stored and served under them"
                            % (field, ", ".join(shared))), d.stmt
-        if fa.xnorm(v, d.node) in EMPTY_VALUES:
+        if is_empty_value(fa.xnorm(v, d.node)):
             empties.append(d)
             continue
         dp = fa.deps(v, d.node)
@@ -919,7 +1033,7 @@ def own_argument_field(fl, field, param):
         oc = None
     if oc is not None:
         for (conj, txt) in oc:
-            if (txt in EMPTY_VALUES or txt == "<unassigned>") and feasible_with(conj, {param}, {"a": 1}):
+            if (is_empty_value(txt) or txt == "<unassigned>") and feasible_with(conj, {param}, {"a": 1}):
                 return False, "self.%s is left empty on a path on which %s were given" % (field, param), (empties[0].stmt if empties else None)
     else:
         for d in empties:
@@ -1481,6 +1595,75 @@ def spread_entries(fa, e, at):
     return out
 
 
+class _Arm:
+    """one case of a definition that creates a mapping by pouring a local mapping in (`{**base, **extra}` where `extra` was
+    made, case by case, as a display): the definition as it reads in that case"""
+    def __init__(self, d, value, cases, at):
+        self.node, self.name, self.kind, self.stmt = d.node, d.name, d.kind, d.stmt
+        self.value, self.cases, self.at = value, cases, at
+
+
+def _merge_arms(fa, d):
+    """`d` creates a mapping as `{**base, **local}` / `dict(base, **local)` and every definition of `local` that reaches it
+    is a display with constant keys (or empty): the cases, each written out as `{**base, key: value, ...}`.  None when the
+    definition is not of that form."""
+    v = strip_cast(d.value) if d.value is not None else None
+    base, poured = None, None
+    if isinstance(v, ast.Dict) and len(v.keys) == 2 and v.keys[0] is None and v.keys[1] is None:
+        base, poured = v.values
+    elif isinstance(v, ast.Call) and isinstance(v.func, ast.Name) and v.func.id == "dict" and len(v.args) == 1 and len(v.keywords) == 1 and v.keywords[0].arg is None:
+        base, poured = v.args[0], v.keywords[0].value
+    elif isinstance(v, ast.BinOp) and isinstance(v.op, ast.BitOr):
+        base, poured = v.left, v.right
+    poured = strip_cast(poured) if poured is not None else None
+    if not isinstance(poured, ast.Name):
+        return None
+    ds = fa.df.reaching(d.node, poured.id)
+    if not ds:
+        return None
+    arms = []
+
+    def branches(x, lits):
+        x = strip_cast(x)
+        if isinstance(x, ast.IfExp):
+            return branches(x.body, lits + ((A.norm(x.test), True),)) + branches(x.orelse, lits + ((A.norm(x.test), False),))
+        return [(x, lits)]
+
+    for dd in ds:
+        if dd.kind != "assign" or dd.value is None or getattr(dd, "guard", ()):
+            return None
+        for (x, lits) in branches(dd.value, ()):
+            got = _merge_arm(fa, d, dd, v, base, x, lits)
+            if got is None:
+                return None
+            arms.append(got)
+    return arms
+
+
+def _merge_arm(fa, d, dd, v, base, x, lits):
+    if isinstance(x, ast.Call) and isinstance(x.func, ast.Name) and x.func.id == "dict" and not x.args and all(k.arg is not None for k in x.keywords):
+        keys, vals = [ast.Constant(value=k.arg) for k in x.keywords], [k.value for k in x.keywords]
+    elif isinstance(x, ast.Dict) and all(k is not None and A.const_str(k) is not None for k in x.keys):
+        keys, vals = list(x.keys), list(x.values)
+    else:
+        return None
+    # the values are read where the display is made: nothing they are made of may change on the way to the merge
+    for val in vals:
+        for n in ast.walk(val):
+            nm = _ref_name(n) if isinstance(n, (ast.Name, ast.Attribute)) else None
+            if nm is not None and {(q.node, q.name) for q in fa.df.reaching(dd.node, nm)} != {(q.node, q.name) for q in fa.df.reaching(d.node, nm)}:
+                return None
+    merged = ast.Dict(keys=[None] + keys, values=[base] + vals)
+    ast.copy_location(merged, v)
+    ast.fix_missing_locations(merged)
+    cases = set()
+    for cj in conds(fa, dd.node):
+        full = frozenset(set(cj) | set(canon_conj(lits)))
+        if not any((t, not p_) in full for (t, p_) in full):
+            cases.add(full)
+    return _Arm(d, merged, cases, dd.node)
+
+
 def reserved_key_clause(fl):
     """C16.R1 / C04.R3: the context args are put on the hash input under the reserved key, before the hash is taken,
     exactly when they are non-empty.  Returns (ok, where, stores, shapes, n_sites)."""
@@ -1504,7 +1687,10 @@ def reserved_key_clause(fl):
             sh = map_shape(c.args[0]) if len(c.args) == 1 and not c.keywords else ((None, [(k.arg, k.value) for k in c.keywords if k.arg], False) if not c.args else None)
             if sh is not None and sh[0] is None:
                 stores += [(s, c.func.value, v) for (k, v) in sh[1] if k == RESERVED]
-    shapes = [(d, map_shape(d.value)) for d in hks]
+    cases = []
+    for d in hks:
+        cases += _merge_arms(init, d) or [d]
+    shapes = [(d, map_shape(d.value)) for d in cases]
     inline = [(d, v) for (d, sh) in shapes if sh is not None for (k, v) in sh[1] if k == RESERVED]
     n_sites = len(stores) + len(inline)
     ok = bool(hks) and n_sites >= 1 and not any(sh is not None and sh[2] for (d, sh) in shapes)
@@ -1536,9 +1722,9 @@ def reserved_key_clause(fl):
             ok = ok and not (set(init.nodes(s)) & after_hash) and fl.hash_at in init.cfg.reach(init.nodes(s))
             cs |= relative(conds(init, s), base)
         for (d, v) in inline:
-            ok = ok and fl.reads_final(v, d.node, "context_args")
+            ok = ok and fl.reads_final(v, getattr(d, "at", d.node), "context_args")
             ok = ok and d.node not in after_hash and fl.hash_at in init.cfg.reach([d.node])
-            cs |= relative(case_conds(init, d), base)
+            cs |= relative(getattr(d, "cases", None) or case_conds(init, d), base)
         # exactly when non-empty
         ok = ok and holds_iff_nonempty(cs, ca_txt)
     return bool(ok), where_r, stores, shapes, n_sites
@@ -2660,11 +2846,20 @@ def check(ck):
           "the caller's context args are inherited only when the call attached none" if ok2 else
           "context args are not inherited exactly when the call has none of its own (guard or source changed)", rb.where())
     rebuilt = [c for c in rb.calls("FunctionReferenceWithArguments")]
-    ok3 = len(rebuilt) == 1 and len(ups) == 1 and bool(un) and bool(rb.nodes(rebuilt[0]))
+    # (a reference made by the function given to map(): `refs = list(map(lambda ref: Reference(...), refs))`)
+    mapped = {}
+    for st_ in rb.stmts(ast.Assign):
+        v_ = strip_cast(st_.value)
+        m_ = v_.args[0] if isinstance(v_, ast.Call) and A.call_attr(v_) == "list" and len(v_.args) == 1 and not v_.keywords else None
+        if isinstance(m_, ast.Call) and isinstance(m_.func, ast.Name) and m_.func.id == "map" and len(m_.args) == 2 and not m_.keywords and isinstance(m_.args[0], ast.Lambda) \
+                and isinstance(m_.args[0].body, ast.Call) and A.call_attr(m_.args[0].body) == "FunctionReferenceWithArguments" and rb.nodes(st_):
+            mapped[id(m_.args[0].body)] = (st_, v_, m_, m_.args[0])
+            rebuilt.append(m_.args[0].body)
+    ok3 = len(rebuilt) == 1 and len(ups) == 1 and bool(un) and (bool(rb.nodes(rebuilt[0])) or id(rebuilt[0]) in mapped)
     if ok3:
         c = rebuilt[0]
-        at = rb.nodes(c)[0]
-        par = rb.pm.get(c)
+        at = rb.nodes(c)[0] if rb.nodes(c) else rb.nodes(mapped[id(c)][0])[0]
+        par = mapped[id(c)][3] if id(c) in mapped else rb.pm.get(c)
         cv = src = None
         rows = {}
         made, heads = [], []
@@ -2683,6 +2878,18 @@ def check(ck):
                 holders = {(i, st.targets[0].id) for i in rb.nodes(st)}
                 made = [d_ for i in rb.nodes(st) for d_ in rb.df.gen.get(i, []) if d_.name == st.targets[0].id]
                 heads = through
+        elif isinstance(par, ast.Lambda) and par.body is c and len(par.args.args) == 1 and not par.args.defaults and par.args.vararg is None \
+                and par.args.kwarg is None and not par.args.kwonlyargs and not getattr(par.args, "posonlyargs", []):
+            # list(map(lambda ref: Reference(...), refs)): one element made for each element, in order - the comprehension by another name
+            st, outer, mp, _lam = mapped.get(id(c), (None, None, None, None))
+            tgt = ast.Name(id=par.args.args[0].arg, ctx=ast.Store())
+            if mp is not None and element_rows(tgt, mp.args[1]) is not None:
+                if outer is not None and isinstance(st, ast.Assign) and st.value is outer and len(st.targets) == 1 and isinstance(st.targets[0], ast.Name):
+                    cv, src, rows = element_rows(tgt, mp.args[1])
+                    through = rb.nodes(st)
+                    holders = {(i, st.targets[0].id) for i in rb.nodes(st)}
+                    made = [d_ for i in rb.nodes(st) for d_ in rb.df.gen.get(i, []) if d_.name == st.targets[0].id]
+                    heads = through
         elif isinstance(par, ast.Call) and A.call_attr(par) == "append" and par.args == [c] and isinstance(A.call_recv(par), ast.Name):
             st = rb.stmt_of(c)
             loop = rb.enclosing(st, (ast.For, ast.While))
@@ -2707,6 +2914,9 @@ def check(ck):
             a = [A.arg_or_kw(c, i, n) for i, n in enumerate(("fn_reference", "args", "kwargs", "context_args"))]
             ok3 = all(x is not None for x in a) and [A.norm(subst_names(x, rows)) for x in a[:3]] == [cv + ".fn_reference", cv + ".args", cv + ".kwargs"] \
                 and is_inherited(a[3], at)
+            if ok3 and id(c) in mapped:
+                # (read in the enclosing function: nothing in it is the function's own parameter)
+                ok3 = not any(isinstance(n_, ast.Name) and n_.id == par.args.args[0].arg for n_ in ast.walk(a[3]))
         # built after the update, on every inheriting path, and it is what is dispatched
         _same = []
 
